@@ -31,6 +31,7 @@ ID = 'C19'
 LEVEL = 'exploration'
 REPLAY_DEADLINE = 300
 MAXTASKS = 1
+HISTORY_REPLAY = True   # a history-dependent case that the recorded sequence alone does not reproduce is re-run with its whole chunk
 WCDIR = os.path.dirname(os.path.abspath(_wcparse.__file__))
 
 # ---------------------------------------------------------------- fixed trees
@@ -110,12 +111,19 @@ POOL = [
     ('glob.tilde', '~/x.*', 'GLOBTILDE|REALPATH', 'present'),
     ('glob.tilde', b'~/x.*', 'GLOBTILDE|REALPATH', 'present'),
     ('wcmatch', '*.txt', 'RECURSIVE', 't1'),
+    # a concrete Path whose target is a file at one call and a directory at another (the trailing-slash rule reads the
+    # file system at the moment of the call)
+    ('path.fs', '**/entry/', 'GLOBSTAR', 'file'),
+    ('path.fs', '**/entry/', 'GLOBSTAR', 'dir'),
     ('FLOOD', None, '', None),
 ]
 
 
 # calls that take the root as a directory descriptor: only used by the residual-state check (not in the sequence pool)
-DIRFD_TUPLES = [('glob.dirfd', '**/*.txt', 'GLOBSTAR', 't1'), ('glob.dirfd', '*/*', '', 't2'), ('glob.dirfd', '**', 'GLOBSTAR|FOLLOW', 't1'),
+DIRFD_TUPLES = [('iglob.abandon', '.*', 'DOTGLOB|SCANDOTDIR', 1), ('iglob.abandon', '.*', 'DOTGLOB|SCANDOTDIR', 2),
+                ('iglob.abandon', '**', 'GLOBSTAR|DOTGLOB|SCANDOTDIR', 1), ('iglob.abandon', '**', 'GLOBSTAR', 3),
+                ('iglob.abandon', '*/*', '', 1),
+                ('glob.dirfd', '**/*.txt', 'GLOBSTAR', 't1'), ('glob.dirfd', '*/*', '', 't2'), ('glob.dirfd', '**', 'GLOBSTAR|FOLLOW', 't1'),
                 ('globmatch.dirfd', '**/f', 'GLOBSTAR|REALPATH', ('t2', 'a/b/f')), ('glob.dirfd', b'**/*.txt', 'GLOBSTAR', 't1')]
 
 
@@ -202,6 +210,36 @@ def execute(t):
                     os.environ.pop('HOME', None)
                 else:
                     os.environ['HOME'] = old
+        if kind == 'path.fs':
+            ent = os.path.join(roots()['__base__'], 'entry')
+            if arg == 'dir':
+                if not os.path.isdir(ent):
+                    if os.path.lexists(ent):
+                        os.unlink(ent)
+                    os.mkdir(ent)
+            else:
+                if os.path.isdir(ent):
+                    os.rmdir(ent)
+                open(ent, 'w').close()
+            pth = WP.Path(ent)
+            return {'globmatch': pth.globmatch(patt, flags=_fl(WP, fs)), 'full_match': pth.full_match(patt, flags=_fl(WP, fs)),
+                    'match': pth.match('entry/', flags=_fl(WP, fs))}
+        if kind == 'iglob.abandon':
+            # take `arg` results of a dir_fd walk and abandon the iterator
+            r = roots()['t1']
+            fd = os.open(r, os.O_RDONLY | os.O_DIRECTORY)
+            try:
+                it = G.iglob(patt, flags=_fl(G, fs), dir_fd=fd)
+                out = []
+                for _ in range(arg):
+                    try:
+                        out.append(next(it))
+                    except StopIteration:
+                        break
+                it.close()
+                return len(out)
+            finally:
+                os.close(fd)
         if kind == 'pathlib.match':
             return WP.PurePosixPath(arg).match(patt, flags=_fl(WP, fs) if fs else 0)
         if kind == 'wcmatch':
@@ -371,7 +409,7 @@ def check_threads(i, gran, res, sub=None, want=None):
         if sub is not None and j not in sub:
             continue
         calls = (a, bcall)
-        if a[0] == 'glob.tilde' and bcall[0] == 'glob.tilde' and a[3] != bcall[3]:
+        if a[0] in ('glob.tilde', 'path.fs') and bcall[0] == a[0] and a[3] != bcall[3]:
             # the two calls need different environments (HOME directory present / absent) and the environment is
             # process-wide: running them concurrently is a conflict the harness would create, not the library
             res.notes['thread_pair_skipped_conflicting_environment'] += 1
@@ -501,7 +539,7 @@ def check_objects(sh, ns, res):
 # ---------------------------------------------------------------- planning
 
 LINE_SUB = [0, 1, 3, 8, 15]           # cheap pure-matching calls: every line-level preemption
-WALKERS = ('glob', 'wcmatch', 'globmatch.real', 'pathlib.match', 'glob.tilde')
+WALKERS = ('glob', 'wcmatch', 'globmatch.real', 'pathlib.match', 'glob.tilde', 'path.fs')
 
 
 def plan(tier, seed):
